@@ -548,7 +548,12 @@ class DimensionValue(Value):
                     # more digits than a float can hold: the largest one
                     val = sys.float_info.max if val > 0 else -sys.float_info.max
             else:
-                val = int(sign + v)
+                try:
+                    val = int(sign + v)
+                except ValueError:
+                    # more digits than the interpreter converts
+                    # (sys.get_int_max_str_digits): as for a float
+                    val = -sys.float_info.max if sign == '-' else sys.float_info.max
 
             dim = None
             if d:
